@@ -125,11 +125,23 @@ func vfSegLen(i int, k *KCP, allowZero bool) int {
 	return n
 }
 
+// vfShift: C12's relational harnesses build a second copy of the same symbolic state with its
+// own sequence numbers shifted by ds, the peer's by dr and every live timestamp by dt.
+type vfShiftT struct{ ds, dr, dt uint32 }
+
+var vfShiftCur vfShiftT
+
+// vfSplitLive: the relational harnesses case-split "is this timestamp live?" (segment already
+// transmitted, probe timer armed, Update() called) so that the shift is a plain +dt instead of
+// an if-then-else term.
+var vfSplitLive bool
+
 // vfArbitraryKCP makes the dynamic state arbitrary within INV_KCP for the given shape.
 func vfArbitraryKCP(p string, k *KCP, sh vfShape) {
-	k.snd_una = vfU32(p + "snd_una")
+	z := vfShiftCur
+	k.snd_una = vfU32(p+"snd_una") + z.ds
 	k.snd_nxt = k.snd_una + uint32(sh.sndBuf)
-	k.rcv_nxt = vfU32(p + "rcv_nxt")
+	k.rcv_nxt = vfU32(p+"rcv_nxt") + z.dr
 	k.rmt_wnd = uint32(vfU16(p + "rmt_wnd"))
 	k.cwnd = vfU32(p + "cwnd")
 	k.ssthresh = vfU32(p + "ssthresh")
@@ -146,8 +158,28 @@ func vfArbitraryKCP(p string, k *KCP, sh vfShape) {
 	k.probe_wait = vfU32(p + "probe_wait")
 	vfAssume(vfOr(k.probe_wait == 0, vfAnd(k.probe_wait >= IKCP_PROBE_INIT, k.probe_wait <= IKCP_PROBE_LIMIT)))
 	k.ts_probe = vfU32(p + "ts_probe")
+	// a disarmed probe timer and a never-updated flush timer hold their initial constants
 	k.ts_flush = vfU32(p + "ts_flush")
 	k.updated = uint32(vfIntRange(p+"updated", 0, 1))
+	if vfSplitLive {
+		if vfPick(p+"probe-armed", 0, 1) == 1 {
+			vfAssume(k.probe_wait != 0)
+			k.ts_probe += z.dt
+		} else {
+			k.probe_wait, k.ts_probe = 0, 0
+		}
+		if vfPick(p+"updated-once", 0, 1) == 1 {
+			k.updated = 1
+			k.ts_flush += z.dt
+		} else {
+			k.updated, k.ts_flush = 0, IKCP_INTERVAL
+		}
+	} else {
+		vfAssume(vfImplies(k.probe_wait == 0, k.ts_probe == 0))
+		k.ts_probe += vfIteU32(k.probe_wait != 0, z.dt, 0)
+		vfAssume(vfImplies(k.updated == 0, k.ts_flush == IKCP_INTERVAL))
+		k.ts_flush += vfIteU32(k.updated != 0, z.dt, 0)
+	}
 	k.state = vfIteU32(vfBool(p+"dead"), 0xFFFFFFFF, 0)
 
 	// sender: snd_buf holds snd_una .. snd_nxt-1, at most snd_wnd of them
@@ -173,9 +205,23 @@ func vfArbitraryKCP(p string, k *KCP, sh vfShape) {
 		} else {
 			seg.acked = 1
 		}
-		// a transmitted segment has a timer armed no further than its rto ahead of its send time
+		// a transmitted segment has a timer armed no further than its rto ahead of its send time;
+		// a segment that was never transmitted is as it came from the queue
 		d := seg.resendts - seg.ts
 		vfAssume(vfImplies(seg.xmit > 0, vfAnd(d <= seg.rto, seg.rto >= k.rx_minrto)))
+		vfAssume(vfImplies(seg.xmit == 0, vfAnd(seg.ts == 0, vfAnd(seg.resendts == 0, seg.rto == 0))))
+		if vfSplitLive {
+			if vfPick(q+"sent", 0, 1) == 1 {
+				vfAssume(seg.xmit > 0)
+				seg.ts += z.dt
+				seg.resendts += z.dt
+			} else {
+				seg.xmit, seg.ts, seg.resendts, seg.rto = 0, 0, 0, 0
+			}
+		} else {
+			seg.ts += vfIteU32(seg.xmit > 0, z.dt, 0)
+			seg.resendts += vfIteU32(seg.xmit > 0, z.dt, 0)
+		}
 		vfAssume(seg.xmit < k.dead_link+10)
 		k.snd_buf.Push(seg)
 	}
@@ -209,7 +255,7 @@ func vfArbitraryKCP(p string, k *KCP, sh vfShape) {
 		var seg segment
 		seg.conv = k.conv
 		seg.cmd = IKCP_CMD_PUSH
-		seg.sn = vfU32(q + "sn")
+		seg.sn = vfU32(q+"sn") + z.dr
 		off := seg.sn - k.rcv_nxt
 		vfAssume(off < k.rcv_wnd)
 		// nothing deliverable is stuck (R3): if the queue has room the next number is not buffered
@@ -227,7 +273,7 @@ func vfArbitraryKCP(p string, k *KCP, sh vfShape) {
 	// ack list: any numbers (a duplicate of an ancient segment is acknowledged too)
 	for j := 0; j < sh.acks; j++ {
 		q := vfName(p+"ack", j)
-		sn := vfU32(q + "sn")
+		sn := vfU32(q+"sn") + z.dr
 		k.acklist = append(k.acklist, ackItem{sn, vfU32(q + "ts")})
 	}
 }
